@@ -15,3 +15,4 @@ func C_a_Drain_0() bool { r := a.Drain(a.StopAfter(2)); return r == nil }
 func C_a_Boxed_0() bool { r := a.Boxed(nil); return r == nil }
 func C_a_BoxedNew_0() bool { r := a.BoxedNew(nil); return r == nil }
 func C_a_First_0() bool { r := a.First([]error{nil}); return r == nil }
+func C_a_Describe_0() bool { r := a.Describe(nil, false); return r == nil }
